@@ -1,15 +1,17 @@
 """C04 — only coherent, untampered file sets open as a record."""
-from . import hashing, record
+from . import hashing, manifest, record
 
 
 def build(reg):
     record.add_record_bindings(reg)
     record.add_open_bindings(reg)
     specs = [reg.specs[("ih5/record.py", "IH5Record._check_ublock")], reg.add(record.OpenRecord())]
+    mf = [x for x in manifest.add_manifest(reg) if x.qual == "IH5MFRecord._open"]
+    specs = specs + mf
     hs = [reg.specs[k] for k in reg.specs if k[1] in ("hashsum", "qualified_hashsum", "hashsum_file")]
     return {
         "verify": specs + hs,
         "lemmas": [],
         "trusted": hashing.TRUSTED + [record.T1_OPEN, record.T5_UB, "T5 pydantic: field access on IH5UserBlock returns the parsed field; UUID equality = equality of canonical text", "T4 list.sort(key) yields a permutation ascending in the key; |{f(x)}| = |xs| iff f injective on xs"],
-        "assumptions": ["IH5Record.__new__ (3 lines) and the IH5Node initialiser called via super().__init__ are taken as: fresh object with _allow_patching=True, __files__=[]; node fields only"],
+        "assumptions": ["IH5MFRecord._open: IH5Record._open is represented by its own contract (verified above) through a stub that either refuses with ValueError or returns a record with at least one container satisfying RecInv", "IH5Record.__new__ (3 lines) and the IH5Node initialiser called via super().__init__ are taken as: fresh object with _allow_patching=True, __files__=[]; node fields only"],
     }
